@@ -220,21 +220,27 @@ func NewBatch(cases []*conv.Case, dist func(string)) (*Batch, error) {
 		b.Progs = append(b.Progs, p)
 	}
 	// first build: drop packages that do not compile (C01's subject)
-	outs, err := mod.Build()
-	if err != nil {
-		mod.Close()
-		return nil, err
-	}
-	var kept []*Prog
-	for _, p := range b.Progs {
-		if _, bad := outs[p.Idx]; bad {
-			dist("dropped:does-not-compile")
-			os.RemoveAll(mod.Dir(p.Idx))
-			continue
+	// (the go command does not always report every failing package in one run: repeat until clean)
+	for round := 0; round < 8; round++ {
+		outs, err := mod.Build()
+		if err != nil {
+			mod.Close()
+			return nil, err
 		}
-		kept = append(kept, p)
+		if len(outs) == 0 {
+			break
+		}
+		var kept []*Prog
+		for _, p := range b.Progs {
+			if _, bad := outs[p.Idx]; bad {
+				dist("dropped:does-not-compile")
+				os.RemoveAll(mod.Dir(p.Idx))
+				continue
+			}
+			kept = append(kept, p)
+		}
+		b.Progs = kept
 	}
-	b.Progs = kept
 	// drivers
 	w := func(rel, content string) {
 		full := filepath.Join(mod.Root, rel)
